@@ -54,7 +54,7 @@ def cases(draw):
     # the operator's try-submit-jobs / show-status may also run while batches are still active (a generated number of
     # steps into the run), not only after everything drained
     user = draw(st.lists(st.fixed_dictionaries({"at": st.integers(20, 400), "cmd": st.sampled_from(["try", "show"])}), max_size=2))
-    return {"scn": scn, "schedule": draw(gen.schedules()), "faults": faults, "user": user}
+    return {"scn": scn, "schedule": draw(gen.schedules()), "faults": faults, "user": user, "late": draw(C.late_ops())}
 
 
 def strategy(tier):
@@ -77,10 +77,13 @@ def run_case(case):
                     sim.user_cmd(["try-submit-jobs", sim.out] if cmd == "try" else ["show-status", "-o", sim.out, "-n"])
 
             w.user_events.append((u["cmd"], pred, fire, True))
+        C.install_late_ops(sim, case.get("late"))
         sim.submit()
         outcome = sim.drive()
         w.user_events.clear()
         res = C.base_result(case, sim, outcome)
+        if case.get("late") and not w.cond_events:
+            res["classes"].append("late_operator_command_fired")
         v = res["violations"]
         jobs = R.job_map(scn)
         if case.get("user"):
